@@ -29,6 +29,27 @@ def install_schema(reg: Registry):
     reg.add_exception('LanguageGraphException')
 
 
+_HS = {}
+
+
+def spec_heap(schema) -> H:
+    """the specification heap HS: a fixed snapshot (global constants) of the language specification, the language graph and
+    the model, over which Sem / nav / ANC are defined.  Functions require that the current heap agrees with HS on every
+    object of HS (those objects are never written), so the definitions need not be re-proved when the heap grows."""
+    k = id(schema)
+    if k not in _HS or set(_HS[k].arr) != set(H.fresh(schema, 'probe').arr):
+        _HS[k] = H.fresh(schema, 'spec')
+    return _HS[k]
+
+
+def agree(hs: H, h: H):
+    x = A('x!ag')
+    out = [hs.alloc >= 0, hs.alloc <= h.alloc]
+    for n in hs.arr:
+        out.append(FA([x], z3.Implies(z3.And(x >= 0, x < hs.alloc), z3.Select(h.arr[n], x) == z3.Select(hs.arr[n], x)), [z3.Select(h.arr[n], x)]))
+    return z3.And(*out)
+
+
 def fresh_closed(h: H, a0):
     """SEP: every container allocated since a0 references (as dict value / list element) only containers allocated since a0"""
     d = A('d!fc')
